@@ -122,7 +122,7 @@ def run(tier: str, rep: Report):
     ocfg.write_text(f"SPECIFICATION Spec\nCONSTANTS\n  MaxInstr = 3\n  MaxOvr = {3 if tier == 'quick' else 4}\n  Emit = TRUE\nINVARIANT OverridesSafe\n")
     ro = run_tlc("MC_Overrides", str(ocfg), workers=4, timeout=1800, extra=["-continue"])
     ro.errors = [e for e in ro.errors if "behavior up to this point" not in e]
-    rep.add_tlc(ro, "MC_Overrides[<=3 LOAD_CONST of {1, True, 2}, overrides -1..3]")
+    rep.add_tlc(ro, "MC_Overrides[<=3 LOAD_CONST of {1, True, 2}, overrides -2..3]")
     rep.cov["model_invariant_violations_MC_Overrides"] = len(ro.violated)
     ovr_cases = []
     for n, s_ in enumerate(tlc_prints(ro.out)):
